@@ -231,6 +231,7 @@ def run_c17(res, tier, seed):
             run_e2e(res, tb, pkgs)
         for k in range(3 if tier == "quick" else 20):
             run_e2e_session(res, f"{base}/multi{k}", random.Random(seed * 1000 + k))
+            run_e2e_nested(res, f"{base}/nested{k}", random.Random(seed * 1000 + 300 + k))
         for k in range(2 if tier == "quick" else 12):
             run_e2e_manifest(res, f"{base}/manifest{k}", random.Random(seed * 1000 + 500 + k), "C17")
         for k in range(2 if tier == "quick" else 12):
@@ -530,6 +531,45 @@ def run_e2e_chain(res, tb, rng):
             history.append(ev)
             if not ask(ev):
                 return
+    finally:
+        c.close()
+
+
+def run_e2e_nested(res, tb, rng):
+    """a package of its own inside the directory of another one, outside src/, test/ and build/ (a code generator under
+    tools/, an example under examples/), not a dependency of anything: each file belongs to the innermost package root
+    containing it - whichever of the two packages the editor opens first"""
+    def w(path, text):
+        os.makedirs(os.path.dirname(path), exist_ok=True)
+        open(path, "w").write(text)
+    sub = rng.choice(["tools/gen", "examples/demo", "scripts/x/y", "vendor/thing"])
+    w(f"{tb}/app/gleam.toml", 'name = "app"\n')
+    w(f"{tb}/app/src/helper.gleam", 'pub fn which() {\n  "app"\n}\n')
+    w(f"{tb}/app/src/app.gleam", "import helper\npub fn main() {\n  helper.which()\n}\n")
+    w(f"{tb}/app/{sub}/gleam.toml", 'name = "inner"\n')
+    w(f"{tb}/app/{sub}/src/helper.gleam", 'pub fn which() {\n  "inner"\n}\n')
+    w(f"{tb}/app/{sub}/src/inner.gleam", "import helper\npub fn main() {\n  helper.which()\n}\n")
+    order = [("app", f"{tb}/app/src/app.gleam", f"{tb}/app/src/helper.gleam"), ("inner", f"{tb}/app/{sub}/src/inner.gleam", f"{tb}/app/{sub}/src/helper.gleam")]
+    if rng.random() < 0.35:
+        order.reverse()
+    c = lsp.Lsp(tb + "/app")
+    try:
+        if c.initialize() is None:
+            return
+        for name, path, _ in order:
+            c.notify("textDocument/didOpen", {"textDocument": {"uri": "file://" + path, "languageId": "gleam", "version": 1, "text": open(path).read()}})
+        for name, path, want in order:
+            r = c.request("textDocument/definition", {"textDocument": {"uri": "file://" + path}, "position": {"line": 2, "character": 10}}, timeout=30)
+            res.cov["evaluations"] += 1
+            target = None
+            if r and r.get("result"):
+                loc = r["result"][0] if isinstance(r["result"], list) else r["result"]
+                target = loc.get("uri") or loc.get("targetUri")
+            if target is None or os.path.normpath(target[7:]) != want:
+                res.add_violation("C17/file-not-in-innermost-package",
+                                  f"`helper.which` in package {name} (opened {'first' if order[0][0] == name else 'second'}) resolves to {str(target).replace(tb, '')}; "
+                                  f"the module `helper` of its own package is {want.replace(tb, '')}",
+                                  {"tree": tb, "nested_under": sub, "order": [n for n, _, _ in order], "answer": r})
     finally:
         c.close()
 
